@@ -22,6 +22,21 @@ def run(ctx):
                 xs, _ = G.gen_seq(rng, dt, n, kind) if n else ([], kind)
                 lines.append("auto %s %d %s" % (dt, level, G.hexlist(xs)))
                 info.append((dt, n, level, kind))
+    # very smooth sequences: every delta order up to 7 strictly helps (degree >= 9 polynomials, slow large sines),
+    # i.e. the inputs for which the chooser reaches the last candidate
+    import math
+    for dt in ("i64", "u64", "i128", "u128", "nanos", "micros", "i32", "f64"):
+        P, W, kind, pps = C.DTYPES[dt]
+        for level in ([0, 8, 12] if ctx.quick else range(13)):
+            deg = rng.choice([9, 10, 11])
+            npts = rng.choice([120, 200]) if W >= 64 else 40
+            poly = [math.comb(i, deg) for i in range(npts)]
+            amp = 4 * 10**18 if W >= 64 else 10**9
+            sine = [int(math.sin(0.01 * i) * amp) for i in range(1500)]
+            for name, seq in (("poly%d" % deg, poly), ("sine", sine)):
+                xs = [G.from_signed_val(dt, v) for v in seq]
+                lines.append("auto %s %d %s" % (dt, level, G.hexlist(xs)))
+                info.append((dt, len(xs), level, name))
     ans = C.harness(lines, timeout=1800)
     mlines, midx = [], []
     for i, (line, (dt, n, level, kind), a) in enumerate(zip(lines, info, ans)):
